@@ -176,9 +176,9 @@ func (w *World) emit(e *Event) {
 	}
 }
 
-// Huge stands for any integer beyond +-2^30 (TLC integers are 32-bit and its JSON reader truncates
-// silently, so nothing larger may ever be written to a trace).
-const Huge = 1<<30 - 1
+// Huge stands for any integer beyond the 32-bit range of TLC integers (its JSON reader truncates silently, so
+// nothing larger may ever be written to a trace). Interned value codes live in [2^30, 2^31-2) and pass through.
+const Huge = 1<<31 - 2
 
 func clampInt(x int) int {
 	if x > Huge {
